@@ -384,6 +384,40 @@ theorem C02_scanner_shape_counterexample : ¬ C02_scanner_shape_Statement := by
     · cases h
   · cases h
 
+/-- **From the text to the denotation.**  `C02_refines_partial` with its shape hypothesis
+discharged by `C02_scanner_shape_partial`: for every character string the scanner and the parser
+accept (no `~`, or the `~` at the root), if `model_description` accepts the tree and the tree is a
+formula of the documented language, the returned model read as a `Sem` IS the Wilkinson–Rogers
+denotation — outside the wrong-answer classes D3, D22, D24, D25. -/
+theorem C02_refines_text_partial (code : List Char) (ts : List Token) (e : Expr) (m : ModelV) (d : Sem)
+    (hs : Scanner.scan code true = .ok ts) (hp : Parser.parse Generated.parserTable ts = .ok e)
+    (ht : tildeAtRoot e ts = true)
+    (hdesc : describe Generated.resolverOps e = .ok m) (hden : den e = some d)
+    (h3 : hasGapD3 e = false)
+    (h22 : gapD22 Generated.resolverOps e = false) (h24 : gapD24 Generated.resolverOps e = false)
+    (h25 : gapD25 Generated.resolverOps e = false) :
+    ∃ s, semOfModel m = some s ∧ semEq s d = true :=
+  C02_refines_partial e m d hdesc hden
+    (C02_scanner_shape_partial code ts e hs hp (by simp [Lang, hden]) ht) h3 h22 h24 h25
+
+/-- every hypothesis of `C02_refines_text_partial` on a non-trivial text -/
+def textHyps (s : String) (minCommon minGroup : Nat) : Bool :=
+  match Scanner.scan s.toList true with
+  | .ok ts =>
+    (match Parser.parse Generated.parserTable ts with
+     | .ok e =>
+       tildeAtRoot e ts &&
+       (match describe Generated.resolverOps e, den e with
+        | .ok _, some d => decide (d.common.length ≥ minCommon) && decide (d.group.length ≥ minGroup)
+        | _, _ => false) &&
+       !hasGapD3 e && !gapD22 Generated.resolverOps e && !gapD24 Generated.resolverOps e &&
+       !gapD25 Generated.resolverOps e
+     | .error _ => false)
+  | .error _ => false
+
+example : textHyps "y ~ a*b + (0 + x | g) - a + 0 + (1 + x | g:h)" 2 3 = true := by decide +kernel
+example : textHyps "x + z | g / h" 0 6 = true := by decide +kernel
+
 /-- premises satisfiable on non-trivial formulas of both kinds -/
 def shapeHyps (s : String) : Bool :=
   match Scanner.scan s.toList true with
